@@ -182,8 +182,19 @@ def parse_frac(s: str) -> Fraction:
     return Fraction(s)
 
 
-def close(v: float, r, scale=1.0, tol=1e-9) -> bool:
+DEFAULT_TOL = 1e-9
+
+
+def set_tolerance(transcendental: bool):
+    """rational-fragment definitions: 1e-9 relative; definitions with transcendental functions (cancellation inside
+    e.g. d/du asin(sin u) is legitimate rounding): 1e-6 relative"""
+    global DEFAULT_TOL
+    DEFAULT_TOL = 1e-6 if transcendental else 1e-9
+
+
+def close(v: float, r, scale=1.0, tol=None) -> bool:
     """implementation value v (binary64) against exact model value r"""
+    tol = DEFAULT_TOL if tol is None else tol
     try:
         v = float(v)
     except Exception:
